@@ -37,16 +37,28 @@ RULE = (
     "corpus (F9 inputs) + exhaustive small scope (every ordered pair of the 12 public constructors as a "
     "CompositeModel, with equal and with different model names, bare / wrapped in subtract_independent_offset / "
     "inverted, at the default parameters; every constructor alone incl. the deprecated aliases; parameter-name "
-    "routing of every such expression) + seeded random cases: (a) calc_cubic_root on coefficient triples built from "
+    "routing of every such expression; Model.invert() with and without interpolation of every solver-free constructor, "
+    "of its offset model for the offsets -1 and +0.05 with the smallest force 0.05 pN among the requested points, and "
+    "of the sum of every ordered pair of solver-free distance models; sessions of two DNA convenience models, every "
+    "ordered pair of the four public names, for different and for equal temperatures, both observed after the second "
+    "one was built) + seeded random cases: (a) calc_cubic_root on coefficient triples built from "
     "prescribed roots (three real roots, one real root, double roots perturbed to both sides of det = 0, over 12 "
     "decades of scale) and on the coefficient triples of the four cubic-based models, all three selected roots; "
     "(b) 'chain' cases: a random model expression (depth <= 3: base constructors, +, offset, invert with and "
     "without interpolation) with parameters from the property's box (Lp, St, kT +-50% of the dsDNA/ssDNA "
-    "defaults, twist parameters +-10%, Lc log-uniform in 0.3..30 um, offsets in +-0.1), evaluated at 1-8 "
+    "defaults, twist parameters +-10%, Lc log-uniform in 0.3..30 um, offset models in +-0.1, offsets of "
+    "subtract_independent_offset inside the parameter's default bounds +-0.1, exactly 0, or of either sign with "
+    "magnitude 0.02..2), evaluated at 1-8 "
     "forces log-uniform in 0.05 pN .. 80% of the validity limit (St for Odijk/eMS/eFJC, f_max for tWLC, 100 pN "
     "for inextensible Marko-Siggia) or at the distances the published equation assigns to such forces, followed "
-    "by the round trip through the partner model on the implementation's own answers; (c) DNA parametrisations "
-    "(kbp 0.5..60, um/kbp 0.2..0.7, -5..60 C); (d) a malformed stream: non-positive or missing parameters, 2-D "
+    "by the round trip through the partner model on the implementation's own answers; generic inversions of a "
+    "constructor, constructor + offset model, the offset model of either (offset applied once, twice, inside or outside "
+    "the composite) and sums of two distance models, where both the force handed to the model and the force its "
+    "equation sees (x - offset) lie in 0.05 pN .. 80% of the validity limit and the limits are those of the bare "
+    "constructor moved by the offset; (c) DNA parametrisations (kbp 0.5..60, um/kbp 0.2..0.7, -5..60 C), alone and in "
+    "sessions of 2-5 models (DNA convenience models for different / repeated / default temperatures, interleaved with "
+    "generic constructors, equal or different names) that are ALL built before each DNA model is asked for its "
+    "defaults and evaluated at them; (d) a malformed stream: non-positive or missing parameters, 2-D "
     "independent, incompatible composites, interpolation with infinite limits, selected_root=3, forces <= 0, "
     "distances >= Lc, NaN, empty input. Non-trivial: the implementation returned at least one finite number "
     "(chain / cubic / dna cases) or a parameter list (names cases); every case of the malformed stream counts "
@@ -73,6 +85,13 @@ ASSUMPTIONS = [
     "the spline variant of Model.invert() uses a fixed knot spacing of 0.01 in the parent's independent variable; when a "
     "force model is inverted (knots in um) it is only generated for data spanning >= 1 um (>= 100 knots): coarser grids "
     "are inaccurate by construction (seen: 1.3e-3 relative with 8 knots) and say nothing about the property",
+    "Model.invert() starts SciPy from the hard-coded guess 1.0 clipped into the limits (repair of F9); a clipped guess "
+    "that lands ON the lower limit of a distance model whose equation is singular there (x - offset = 0 for "
+    "Odijk/eFJC/tWLC) silently returns that limit (seen: ewlc_odijk_distance, f_offset = 1.357, independent_min = "
+    "f_offset answers 1.357 for the distance of 6.338 pN). x - offset = 0 is outside the property's force range, so "
+    "this is not judged: when the moved lower limit of a force would be >= 1 the generator uses offset + 0.04 pN",
+    "slopes of an inverted expression are estimated with a central difference of relative step 1e-4 of |x| + |offset| "
+    "(the wrapped model of an offset model is evaluated at x - offset)",
     "validity limits used for '80% of the validity limit': St (Odijk, eMS, eFJC), f_max = (-g0 + sqrt(St C))/g1 "
     "(tWLC, from twlc_solve_force), 100 pN for the inextensible Marko-Siggia pair (d < Lc always)",
 ]
@@ -343,6 +362,44 @@ def show(v):
     return v if isinstance(v, str) else enc_vals(v)
 
 
+DNA_CTORS = {"dsdna_ewlc_odijk_distance": 0.34, "ssdna_efjc_distance": 0.56, "dsdna_odijk": 0.34, "ssdna_fjc": 0.56}
+
+
+def observe_dna(m, name, st, xs):
+    """parametrisation of a DNA convenience model (its defaults, read NOW) and its value at those defaults"""
+    kind = "ewlc_odijk_distance" if "odijk" in st["ctor"] else "efjc_distance"
+    try:
+        dv = {k: float(v.value) for k, v in m.defaults.items()}
+        a0 = enc_vals([dv[f"{name}/Lc"], dv["kT"], dv[f"{name}/Lp"], dv[f"{name}/St"]])
+    except Exception as ex:  # noqa: BLE001
+        return [errname(ex), errname(ex)], [
+            f"c12.dna {enc_float(st['kbp'])} {enc_float(st['um'])} {enc_float(st['temp'])}", "c12.skip"]
+    a1 = show(call(m, np.array(xs), dv))
+    return [a0, a1], [
+        f"c12.dna {enc_float(st['kbp'])} {enc_float(st['um'])} {enc_float(st['temp'])}",
+        eval_op(["b", kind, name], dv, xs),
+    ]
+
+
+def abs_shift(e, params):
+    """total |offset| by which subtract_independent_offset nodes move the independent variable of `e`"""
+    t = e[0]
+    if t == "off":
+        o = params.get(p_offset_name(e[1]), 0.0)
+        return abs(o) + abs_shift(e[1], params)
+    if t == "add":
+        return max(abs_shift(e[1], params), abs_shift(e[2], params))
+    return 0.0
+
+
+def fd_steps(e, params, x0):
+    """absolute steps of the slope estimate of `e` around the points x0: FD relative to the point AND to the shift (the
+    wrapped model of an offset model sees x - offset, so a step relative to a small x alone would be lost in the
+    rounding noise of the wrapped model's closed form)"""
+    s = abs_shift(e, params)
+    return [FD * (abs(v) + s) for v in x0]
+
+
 def run_case(case):
     """returns (answers, ops): the implementation's observables and the protocol lines asking the model the
     same questions (ops may quote earlier answers of the implementation: round trips run on ITS values)"""
@@ -375,15 +432,34 @@ def run_case(case):
             lk = _lk()
             ctor = case["ctor"]
             m = getattr(lk, ctor)("m", case["kbp"], case["um"], case["temp"])
-            dv = {k: float(v.value) for k, v in m.defaults.items()}
-            xs = case["xs"]
-            kind = "ewlc_odijk_distance" if "odijk" in ctor else "efjc_distance"
-            a0 = enc_vals([dv["m/Lc"], dv["kT"], dv["m/Lp"], dv["m/St"]])
-            a1 = show(call(m, np.array(xs), dv))
-            return [a0, a1], [
-                f"c12.dna {enc_float(case['kbp'])} {enc_float(case['um'])} {enc_float(case['temp'])}",
-                eval_op(["b", kind, "m"], dv, xs),
-            ]
+            return observe_dna(m, "m", case, case["xs"])
+        if op == "dnaseq":
+            # one session: every model of the sequence is constructed FIRST, then each DNA model is asked for its
+            # parametrisation and evaluated at its own defaults (a model must not depend on what else was built)
+            lk = _lk()
+            steps, xs = case["steps"], case["xs"]
+            dna_ops = []
+            for st in steps:
+                if st["ctor"] in DNA_CTORS:
+                    kind = "ewlc_odijk_distance" if "odijk" in st["ctor"] else "efjc_distance"
+                    dna_ops += [f"c12.dna {enc_float(st['kbp'])} {enc_float(st['um'])} {enc_float(st['temp'])}",
+                                f"c12.skip {kind} {st['name']}"]
+            built = []
+            try:
+                for st in steps:
+                    if st["ctor"] in DNA_CTORS:
+                        built.append(getattr(lk, st["ctor"])(st["name"], st["kbp"], st["um"], st["temp"]))
+                    else:
+                        built.append(getattr(lk, st["ctor"])(st["name"]))
+            except Exception as ex:  # noqa: BLE001
+                return [errname(ex)] * len(dna_ops), dna_ops
+            ans, ops = [], []
+            for st, m in zip(steps, built):
+                if st["ctor"] in DNA_CTORS:
+                    a, o = observe_dna(m, st["name"], st, xs)
+                    ans += a
+                    ops += o
+            return ans, ops
         if op == "chain":
             e, params, xs = case["expr"], case["params"], case["xs"]
             x_arg = np.array(xs, dtype=float) if not case.get("ndim2") else np.array([xs, xs], dtype=float)
@@ -407,7 +483,8 @@ def run_case(case):
                     steps = [(e[1], list(np.array(xs) - o))]
             elif t == "inv":
                 x0 = [float(v) for v in a0]
-                steps = [(e[1], x0), (e[1], [v * (1 + FD) for v in x0]), (e[1], [v * (1 - FD) for v in x0])]
+                hs = fd_steps(e[1], params, x0)
+                steps = [(e[1], x0), (e[1], [v + h for v, h in zip(x0, hs)]), (e[1], [v - h for v, h in zip(x0, hs)])]
             elif t == "b" and base_kind(e) in PARTNER and case.get("valid"):
                 partner = ["b", PARTNER[base_kind(e)], e[2]]
                 x0 = [float(v) for v in a0]
@@ -493,7 +570,7 @@ def agree(case, i, ia, ma):
         parts = ma.split(":")
         r = close_bound(dec_float(ia), dec_float(parts[0]), dec_float(parts[1]))
         return r is not False
-    if case["op"] == "dna" and i == 0:
+    if case["op"] in ("dna", "dnaseq") and i % 2 == 0:
         iv = [dec_float(t) for t in ia[1:-1].split(",")]
         mv = [dec_float(t) for t in ma[1:-1].split(",")]
         return all(abs(a - b) <= 4e-16 * abs(b) for a, b in zip(iv[:2], mv))
@@ -579,27 +656,43 @@ def oracle(case, ia):
         exp = f"{p_indep(e)} {'d' if p_indep(e) == 'f' else 'f'} " + ",".join(p_names(e))
         return None if ia[0] == exp else f"parameter-names: expected {exp}, implementation has {ia[0]}"
     if op == "dna":
-        v = dec_vals(ia[0])
-        ss = "jc" in case["ctor"]
-        expLc = case["kbp"] * case["um"]
-        expkT = 1e21 * 1.380649e-23 * (case["temp"] + 273.15)
-        if abs(v[0] - expLc) > 1e-14 * abs(expLc):
-            return f"dna-Lc: default Lc {v[0]} != kbp*um_per_kbp {expLc}"
-        if abs(v[1] - expkT) > 1e-13 * abs(expkT):
-            return f"dna-kT: default kT {v[1]} != 1e21*k_B*T {expkT}"
-        if (v[2], v[3]) != ((0.70, 750.0) if ss else (50.0, 1200.0)):
-            return f"dna-defaults: Lp, St = {v[2]}, {v[3]}"
-        got = dec_vals(ia[1])
-        if got is None:
-            return f"dna-eval: {ia[1]}"
-        for F, g in zip(case["xs"], got):
-            a = [v[2], v[0], v[3], v[1]]
-            exp = P_efjc_d(F, *a) if ss else P_odijk_d(F, *a)
-            if abs(g - exp) > TOL_EXPLICIT * max(abs(exp), v[0]):
-                return f"dna-eval: model({F}) = {g}, published equation gives {exp}"
+        return oracle_dna(case, case["xs"], ia[0], ia[1], "")
+    if op == "dnaseq":
+        dna = [st for st in case["steps"] if st["ctor"] in DNA_CTORS]
+        for j, st in enumerate(dna):
+            where = f" (model {st['name']!r}, {st['ctor']} at {st['temp']} C, observed after {len(case['steps'])} models were built)"
+            r = oracle_dna(st, case["xs"], ia[2 * j], ia[2 * j + 1], where)
+            if r:
+                return r
         return None
     if op == "chain":
         return oracle_chain(case, ia)
+    return None
+
+
+def oracle_dna(st, xs, a0, a1, where):
+    """the DNA convenience parametrisation: Lc = kbp * um/kbp, kT = 1e21 k_B (T + 273.15), the documented Lp / St, and
+    the published equation at exactly these values"""
+    v = dec_vals(a0)
+    if v is None:
+        return f"dna-build: {a0}{where}"
+    ss = "jc" in st["ctor"]
+    expLc = st["kbp"] * st["um"]
+    expkT = 1e21 * 1.380649e-23 * (st["temp"] + 273.15)
+    if abs(v[0] - expLc) > 1e-14 * abs(expLc):
+        return f"dna-Lc: default Lc {v[0]} != kbp*um_per_kbp {expLc}{where}"
+    if abs(v[1] - expkT) > 1e-13 * abs(expkT):
+        return f"dna-kT: default kT {v[1]} != 1e21*k_B*T {expkT}{where}"
+    if (v[2], v[3]) != ((0.70, 750.0) if ss else (50.0, 1200.0)):
+        return f"dna-defaults: Lp, St = {v[2]}, {v[3]}{where}"
+    got = dec_vals(a1)
+    if got is None:
+        return f"dna-eval: {a1}{where}"
+    for F, g in zip(xs, got):
+        a = [v[2], v[0], v[3], v[1]]
+        exp = P_efjc_d(F, *a) if ss else P_odijk_d(F, *a)
+        if abs(g - exp) > TOL_EXPLICIT * max(abs(exp), v[0]):
+            return f"dna-eval: model({F}) = {g}, published equation gives {exp}{where}"
     return None
 
 
@@ -680,9 +773,10 @@ def oracle_chain(case, ia):
         if back is None or up is None or dn is None:
             return None
         lo, hi = fl(e[2]), fl(e[3])
+        hs = fd_steps(e[1], params, got)
         for i, (y, x, bk) in enumerate(zip(xs, got, back)):
             # y = requested value of the parent's dependent variable, x = implementation's inverse, bk = parent(x)
-            slope = abs(up[i] - dn[i]) / (2 * FD * abs(x)) if x != 0 else float("inf")
+            slope = abs(up[i] - dn[i]) / (2 * hs[i]) if hs[i] != 0 else float("inf")
             if not math.isfinite(slope) or slope == 0 or not math.isfinite(bk):
                 continue
             room = max(1e-3, min(1.0, abs(x - lo), abs(hi - x)))
@@ -811,6 +905,18 @@ def shrink(case):
                     c = dict(case)
                     c["expr"] = sub
                     yield c
+    if case["op"] == "dnaseq":
+        st = case["steps"]
+        if len(st) > 1:
+            for i in range(len(st)):
+                c = dict(case)
+                c["steps"] = st[:i] + st[i + 1:]
+                if any(x["ctor"] in DNA_CTORS for x in c["steps"]):
+                    yield c
+        if len(case["xs"]) > 1:
+            c = dict(case)
+            c["xs"] = case["xs"][:1]
+            yield c
     if case["op"] == "cubic" and len(case["ks"]) > 1:
         for k in case["ks"]:
             c = dict(case)
@@ -842,6 +948,17 @@ def draw_param(rng, kind, arg, default_only=False):
     return base * rng.uniform(0.5, 1.5)
 
 
+def draw_shift(rng):
+    """an offset of subtract_independent_offset (pN or um): inside the default bounds +-0.1 of the parameter, exactly 0,
+    or a baseline error of either sign with a magnitude of 0.02 .. 2 (several times the smallest force of the box)"""
+    r = rng.random()
+    if r < 0.4:
+        return rng.uniform(-0.1, 0.1)
+    if r < 0.5:
+        return 0.0
+    return (-1.0 if rng.chance(0.5) else 1.0) * rng.loguniform(0.02, 2.0)
+
+
 def leaves(e):
     if e[0] == "b":
         return [e]
@@ -867,7 +984,7 @@ def draw_params(rng, e, default_only=False):
             kind, a = owner[n]
             params[n] = draw_param(rng, kind, a, default_only)
         else:  # offsets of subtract_independent_offset
-            params[n] = 0.01 if default_only else rng.uniform(-0.1, 0.1)
+            params[n] = 0.01 if default_only else draw_shift(rng)
     return params
 
 
@@ -938,6 +1055,24 @@ def monotone_sample(rng, e, params, n):
     Lcs = [params[f"{x[2]}/Lc"] for x in lf] or [16.0]
     Lc = min(Lcs)
     return sorted(Lc * rng.uniform(0.3, 0.97) for _ in range(n))
+
+
+def dna_step(sub, name, before):
+    """a DNA convenience constructor call; the temperature is now and then the default one or the one of an earlier
+    step, otherwise any temperature of the range"""
+    ctor = sub.choice(sorted(DNA_CTORS))
+    um0 = DNA_CTORS[ctor]
+    kbp = sub.choice([0.5, 1.0, 8.0, 48.502, float(sub.randint(1, 60)), sub.uniform(0.9, 60.0)])
+    um = um0 if sub.chance(0.5) else sub.uniform(0.2, 0.7)
+    earlier = [st["temp"] for st in before if "temp" in st]
+    t = sub.random()
+    if t < 0.15:
+        temp = 24.53608821
+    elif t < 0.3 and earlier:
+        temp = sub.choice(earlier)
+    else:
+        temp = sub.uniform(-5.0, 60.0)
+    return {"ctor": ctor, "name": name, "kbp": float(kbp), "um": float(um), "temp": float(temp)}
 
 
 def corpus_cases():
@@ -1063,6 +1198,29 @@ def small_scope(rng, quick):
             ys = [float(v) for v in plain_eval_base(e0, p, xs0)]
             lo, hi = inv_limits(e0, p, xs0, interp)
             yield chain_case(["inv", e0, lo, hi, interp], p, ys, "small-scope", True)
+            # ... and of its offset model, for a baseline error well above the smallest force and for a small positive
+            # one (default parameters, the smallest force of the range among the requested points)
+            for o in (-1.0, 0.05):
+                c = inversion_case(r.fork(f"invoff{k}{interp}{o}"), k, "off", interp, "small-scope", default_only=True,
+                                   shifts=[o], n=4, include_low=True)
+                if c is not None:
+                    yield c
+    # inversion of the sum of every ordered pair of solver-free distance models
+    for k1 in INV_KINDS_F:
+        for k2 in INV_KINDS_F:
+            c = inversion_case(r.fork("invsum" + k1 + k2), k1, "sum", False, "small-scope", default_only=True, k2=k2,
+                               n=3, include_low=True)
+            if c is not None:
+                yield c
+    # sessions of two DNA convenience models (every ordered pair of the four public names), built for different and
+    # for equal temperatures, both observed after the second one exists
+    for c1 in sorted(DNA_CTORS):
+        for c2 in sorted(DNA_CTORS):
+            for t1, t2 in ((20.0, 37.0), (24.53608821, 30.0), (30.0, 30.0)):
+                for n1, n2 in (("m", "m"), ("m", "n")) if (t1, t2) == (20.0, 37.0) else (("m", "n"),):
+                    yield {"stream": "small-scope", "op": "dnaseq", "xs": [0.05, 1.0, 25.0], "steps": [
+                        {"ctor": c1, "name": n1, "kbp": 10.0, "um": DNA_CTORS[c1], "temp": t1},
+                        {"ctor": c2, "name": n2, "kbp": 5.0, "um": DNA_CTORS[c2], "temp": t2}]}
 
 
 def plain_eval_base(e, params, xs):
@@ -1113,6 +1271,84 @@ def inv_limits(e0, p, xs0, interp):
     return lo, hi
 
 
+INV_SHAPES = [  # (shape of the expression handed to Model.invert(), weight)
+    ("plain", 0.25), ("add", 0.15), ("off", 0.25), ("off_add", 0.08), ("add_off", 0.08), ("off_off", 0.04),
+    ("sum", 0.08), ("sum_off", 0.07),
+]
+INV_KINDS = [k for k in sorted(KINDS) if k not in SOLVER_KINDS and not k.endswith("offset")]
+INV_KINDS_F = [k for k in INV_KINDS if KINDS[k][2] == "f"]
+
+
+def off_names(e):
+    """names of the offsets of the subtract_independent_offset nodes of e, outermost first"""
+    t = e[0]
+    if t == "off":
+        return [p_offset_name(e[1])] + off_names(e[1])
+    if t == "add":
+        return off_names(e[1]) + off_names(e[2])
+    return []
+
+
+def inversion_case(sub, k, shape, interp, stream, default_only=False, shifts=None, k2=None, n=None, include_low=False,
+                   **kw):
+    """Model.invert() of a solver-free increasing expression around constructor k: the constructor itself, plus an
+    offset model, wrapped in subtract_independent_offset (once, twice, inside or outside a composite), or the sum of
+    two distance models.  The requested values are the ones the published relations assign to inputs of the property's
+    range; the inversion limits are those of the bare constructor moved along with the offset."""
+    unit = KINDS[k][2]
+    if unit != "f" and shape.startswith("sum"):
+        shape = "off" if shape == "sum_off" else "plain"
+    parts = [["b", k, "m"]]
+    if shape.startswith("sum"):
+        parts.append(["b", k2, "n"])
+    core = parts[0] if len(parts) == 1 else ["add", parts[0], parts[1]]
+    offm = ["b", "distance_offset" if unit == "f" else "force_offset", "o"]
+    inner = {
+        "plain": core, "sum": core, "add": ["add", core, offm], "off": ["off", core], "sum_off": ["off", core],
+        "off_add": ["add", ["off", core], offm], "add_off": ["off", ["add", core, offm]], "off_off": ["off", ["off", core]],
+    }[shape]
+    p = draw_params(sub, inner, default_only)
+    onames = off_names(inner)
+    for nm, o_ in zip(onames, shifts or []):
+        p[nm] = float(o_)
+    o = sum(p[nm] for nm in onames)  # the core sees x - o
+    a_list = [args_of(x, p) for x in parts]
+    n = n or sub.randint(1, 5)
+    Fs = forces_for(sub, k, a_list[0], n)
+    if include_low:
+        Fs[0] = 0.05
+    if unit == "f":
+        # both the force handed to the model (x) and the force its equation is evaluated at (x - o) lie in the
+        # property's range 0.05 pN .. 80% of the validity limit
+        cap = min(0.8 * validity_limit(base_kind(x), a) for x, a in zip(parts, a_list)) - abs(o)
+        if cap <= 0.05:
+            return None
+        us = sorted(min(u, cap) for u in Fs)
+        xs_in = [u + max(-o, 0.0) for u in us]
+    else:
+        xs_in = [curve_point(k, F, a_list[0])[1] for F in Fs]
+    if interp and unit == "d" and max(xs_in) - min(xs_in) < 1.0:
+        # the spline grid has a FIXED step of 0.01 in the independent variable of the parent (here: um);
+        # with fewer than ~100 knots over the data the interpolant is coarse by construction (see ASSUMPTIONS)
+        interp = False
+    ys = [0.0] * len(xs_in)
+    lo, hi = -math.inf, math.inf
+    for x in parts:
+        ys = [y + v for y, v in zip(ys, plain_eval_base(x, p, xs_in))]
+        l_, h_ = inv_limits(x, p, xs_in, interp)
+        lo, hi = max(lo, fl(l_)), min(hi, fl(h_))
+    if "add" in shape:
+        ys = [y + p[f"o/{'d' if unit == 'f' else 'f'}_offset"] for y in ys]
+    if not all(math.isfinite(y) for y in ys):
+        return None
+    lo2, hi2 = lo + o, (INF if math.isinf(hi) else hi + o)
+    if unit == "f" and lo2 >= 1.0:
+        # Model.invert() starts SciPy from the hard-coded guess 1.0 clipped into the limits: with a lower limit >= 1 it
+        # would start ON the limit, and at x - o = 0 the distance models are singular (see ASSUMPTIONS)
+        lo2 = o + 0.04
+    return chain_case(["inv", inner, lo2, hi2, interp], p, ys, stream, True, **kw)
+
+
 def cases(tier, rng):
     quick = tier == "quick"
     yield from corpus_cases()
@@ -1161,34 +1397,20 @@ def cases(tier, rng):
         yield {"stream": "random", "op": "names", "expr": e, "subseed": i}
         yield chain_case(e, p, xs, "random", False, subseed=i)
 
-    # ---- generic inversion, with and without interpolation, of constructors and of composites
+    # ---- generic inversion, with and without interpolation, of constructors, composites and offset models
     r = rng.fork("c12-invert")
-    inv_kinds = [k for k in kinds if k not in SOLVER_KINDS]
-    for i in range(250 if quick else 4000):
+    for i in range(300 if quick else 5000):
         sub = r.fork(i)
-        k = sub.choice(inv_kinds)
-        e0 = ["b", k, "m"]
-        p = draw_params(sub, e0)
-        xs0 = base_inputs(sub, e0, p, sub.randint(1, 5))
-        interp = sub.chance(0.5)
-        if interp and KINDS[k][2] == "d" and max(xs0) - min(xs0) < 1.0:
-            # the spline grid has a FIXED step of 0.01 in the independent variable of the parent (here: um);
-            # with fewer than ~100 knots over the data the interpolant is coarse by construction (see ASSUMPTIONS)
-            interp = False
-        lo, hi = inv_limits(e0, p, xs0, interp)
-        inner = e0
-        ys = plain_eval_base(e0, p, xs0)
-        if sub.chance(0.35):
-            # invert a composite: model + offset model (still increasing); targets shift by the offset value
-            offk = "distance_offset" if KINDS[k][2] == "f" else "force_offset"
-            inner = ["add", e0, ["b", offk, "o"]]
-            p = dict(p)
-            oname = f"o/{'d' if KINDS[k][2] == 'f' else 'f'}_offset"
-            p[oname] = sub.uniform(-0.1, 0.1)
-            ys = [y + p[oname] for y in ys]
-        if not all(math.isfinite(y) for y in ys):
-            continue
-        yield chain_case(["inv", inner, lo, hi, interp], p, ys, "random", True, subseed=i)
+        k = sub.choice(INV_KINDS)
+        t, shape = sub.random(), INV_SHAPES[-1][0]
+        for nm, w in INV_SHAPES:
+            if t < w:
+                shape = nm
+                break
+            t -= w
+        c = inversion_case(sub, k, shape, sub.chance(0.5), "random", k2=sub.choice(INV_KINDS_F), subseed=i)
+        if c is not None:
+            yield c
 
     # ---- (c) DNA parametrisations
     r = rng.fork("c12-dna")
@@ -1203,6 +1425,25 @@ def cases(tier, rng):
         xs = sorted(sub.loguniform(0.05, lim) for _ in range(sub.randint(1, 4)))
         yield {"stream": "random", "op": "dna", "ctor": ctor, "kbp": float(kbp), "um": float(um), "temp": float(temp),
                "xs": xs, "subseed": i}
+
+    # ---- (c') sessions: several models built one after the other, every DNA model observed after the last one
+    r = rng.fork("c12-dnaseq")
+    generic = [k for k in sorted(KINDS) if not k.endswith("offset")]
+    for i in range(150 if quick else 2000):
+        sub = r.fork(i)
+        steps = []
+        for j in range(sub.randint(2, 4)):
+            nm = sub.choice(["m", "DNA", f"m{j}"])
+            if j > 0 and sub.chance(0.25):
+                steps.append({"ctor": sub.choice(generic), "name": nm})
+                continue
+            steps.append(dna_step(sub, nm, steps))
+        if not any(st["ctor"] in DNA_CTORS for st in steps[:-1]):
+            steps.append(dna_step(sub, "last", steps))
+        xs = sorted(sub.loguniform(0.05, 600.0) for _ in range(sub.randint(1, 3)))
+        if sub.chance(0.2):
+            xs[0] = 0.05
+        yield {"stream": "random", "op": "dnaseq", "steps": steps, "xs": xs, "subseed": i}
 
     # ---- (d) malformed stream
     r = rng.fork("c12-malformed")
@@ -1253,9 +1494,25 @@ def extra_coverage(results):
     rel = []
     dropped = compared = 0
     solver_cases = 0
+    inv_shapes, sessions = {}, {"sessions": 0, "with_two_different_temperatures": 0, "dna_models_observed": 0}
     for r in results:
         c = r["case"]
         kinds[c["op"]] = kinds.get(c["op"], 0) + 1
+        if c["op"] == "dnaseq":
+            temps = [st["temp"] for st in c["steps"] if st["ctor"] in DNA_CTORS]
+            sessions["sessions"] += 1
+            sessions["with_two_different_temperatures"] += len(set(temps)) > 1
+            sessions["dna_models_observed"] += len(temps)
+        if c["op"] == "chain" and c["expr"][0] == "inv" and c.get("valid"):
+            inner = c["expr"][1]
+            offs = [c["params"][n] for n in off_names(inner)]
+            key = ("offset-model" if offs else "no-offset") + ("+composite" if inner[0] == "add" or (offs and any(
+                x[0] == "add" for x in (inner, inner[1]) if isinstance(x, list))) else "")
+            inv_shapes[key] = inv_shapes.get(key, 0) + 1
+            if offs and sum(offs) <= -0.2:
+                inv_shapes["offset<=-0.2"] = inv_shapes.get("offset<=-0.2", 0) + 1
+            if offs and sum(offs) >= 0.2:
+                inv_shapes["offset>=+0.2"] = inv_shapes.get("offset>=+0.2", 0) + 1
         if c["op"] == "chain":
             key = c["expr"][0] if c["expr"][0] != "b" else base_kind(c["expr"])
             roots[key] = roots.get(key, 0) + 1
@@ -1294,6 +1551,8 @@ def extra_coverage(results):
         "values_dropped_bound_undetermined (det~0 or >1e-2 relative)": dropped,
         "model_error_bound_relative_quantiles": {"median": q(0.5), "p90": q(0.9), "p99": q(0.99), "max": q(1.0)},
         "cases_through_scipy_solver": solver_cases,
+        "generic_inversions_by_shape": inv_shapes,
+        "dna_sessions": sessions,
         "exhaustive": False,
         "exhaustive_note": "the small-scope stream enumerates all ordered pairs of the 12 constructors (x equal/different names x bare/offset) completely at default parameters; parameter values and forces are sampled",
     }
